@@ -391,16 +391,47 @@ func (c *cfCtx) guard(s *ast.IfStmt) error {
 	return nil
 }
 
-func (c *cfCtx) define(s *ast.AssignStmt) error {
-	if s.Tok != token.DEFINE || len(s.Lhs) != 1 || len(s.Rhs) != 1 {
-		return c.errf("assignment shape")
+// stmt interprets one straight-line statement: `v := e`, `v = e`, `v += e`, or the positive guard.
+// Statements are applied in source order, so the ORDER OF OPERATIONS of the function ends up in the tree.
+func (c *cfCtx) stmt(st ast.Stmt) error {
+	switch x := st.(type) {
+	case *ast.AssignStmt:
+		if len(x.Lhs) != 1 || len(x.Rhs) != 1 {
+			return c.errf("assignment shape")
+		}
+		id, ok := x.Lhs[0].(*ast.Ident)
+		if !ok {
+			return c.errf("assignment target")
+		}
+		v, err := c.expr(x.Rhs[0])
+		if err != nil {
+			return err
+		}
+		switch x.Tok {
+		case token.DEFINE:
+			c.env[id.Name] = v
+		case token.ASSIGN:
+			if _, ok := c.env[id.Name]; !ok {
+				return c.errf("assignment to unknown %s", id.Name)
+			}
+			c.env[id.Name] = v
+		case token.ADD_ASSIGN:
+			old, ok := c.env[id.Name]
+			if !ok {
+				return c.errf("+= on unknown %s", id.Name)
+			}
+			if old.isVec() || v.isVec() {
+				return c.errf("vector in scalar sum")
+			}
+			c.env[id.Name] = &cfExpr{op: "add", args: []*cfExpr{old, v}}
+		default:
+			return c.errf("assignment operator %s", x.Tok)
+		}
+		return nil
+	case *ast.IfStmt:
+		return c.guard(x)
 	}
-	v, err := c.expr(s.Rhs[0])
-	if err != nil {
-		return err
-	}
-	c.env[s.Lhs[0].(*ast.Ident).Name] = v
-	return nil
+	return c.errf("statement %T", st)
 }
 
 // ---- the code: Coordinate.DistanceTo
@@ -422,8 +453,8 @@ func cfCode(repo string) (*cfFormula, error) {
 	c := &cfCtx{a: a, b: b, env: map[string]*cfExpr{}, funcs: f, where: "DistanceTo"}
 	out := &cfFormula{}
 	body := fd.Body.List
-	if len(body) != 5 {
-		return nil, c.errf("expected 5 statements, found %d", len(body))
+	if len(body) < 3 {
+		return nil, c.errf("expected at least 3 statements, found %d", len(body))
 	}
 	// 1: if !c.IsCompatibleWith(other) { panic(DimensionalityConflictError{}) }
 	chk, ok := body[0].(*ast.IfStmt)
@@ -457,26 +488,14 @@ func cfCode(repo string) (*cfFormula, error) {
 	} else {
 		return nil, c.errf("panic value is not DimensionalityConflictError{}")
 	}
-	// 2, 3: definitions
-	for _, st := range body[1:3] {
-		as, ok := st.(*ast.AssignStmt)
-		if !ok {
-			return nil, c.errf("expected a definition")
-		}
-		if err := c.define(as); err != nil {
+	// the straight-line middle part, in source order
+	for _, st := range body[1 : len(body)-1] {
+		if err := c.stmt(st); err != nil {
 			return nil, err
 		}
 	}
-	// 4: guard
-	g, ok := body[3].(*ast.IfStmt)
-	if !ok {
-		return nil, c.errf("expected the adjustment guard")
-	}
-	if err := c.guard(g); err != nil {
-		return nil, err
-	}
 	// 5: return time.Duration(<v> * secondsToNanoseconds)
-	ret, ok := body[4].(*ast.ReturnStmt)
+	ret, ok := body[len(body)-1].(*ast.ReturnStmt)
 	if !ok || len(ret.Results) != 1 {
 		return nil, c.errf("expected return")
 	}
@@ -597,8 +616,8 @@ func cfDocs(repo string) (*cfFormula, error) {
 	c := &cfCtx{a: params[0], b: params[1], env: map[string]*cfExpr{}, where: "docs dist"}
 	out := &cfFormula{}
 	body := fd.Body.List
-	if len(body) != 7 {
-		return nil, c.errf("expected 7 statements, found %d", len(body))
+	if len(body) < 5 {
+		return nil, c.errf("expected at least 5 statements, found %d", len(body))
 	}
 	// 1: if len(a.Vec) != len(b.Vec) { panic("…") }
 	chk, ok := body[0].(*ast.IfStmt)
@@ -679,26 +698,14 @@ func cfDocs(repo string) (*cfFormula, error) {
 		return nil, c.errf("loop body: square")
 	}
 	c.env[acc] = &cfExpr{op: "sumsq", args: []*cfExpr{{op: "diff", args: []*cfExpr{l, r}}}}
-	// 4, 5: definitions
-	for _, st := range body[3:5] {
-		as, ok := st.(*ast.AssignStmt)
-		if !ok {
-			return nil, c.errf("expected a definition")
-		}
-		if err := c.define(as); err != nil {
+	// the straight-line rest, in source order
+	for _, st := range body[3 : len(body)-1] {
+		if err := c.stmt(st); err != nil {
 			return nil, err
 		}
 	}
-	// 6: guard
-	g, ok := body[5].(*ast.IfStmt)
-	if !ok {
-		return nil, c.errf("expected the adjustment guard")
-	}
-	if err := c.guard(g); err != nil {
-		return nil, err
-	}
 	// 7: return
-	ret, ok := body[6].(*ast.ReturnStmt)
+	ret, ok := body[len(body)-1].(*ast.ReturnStmt)
 	if !ok || len(ret.Results) != 1 {
 		return nil, c.errf("expected return")
 	}
